@@ -16,7 +16,8 @@ fn init(property: &str) {
 /// C06 (+C10): any UTF-8 text as Markdown document
 pub fn markdown(data: &[u8]) -> Option<String> {
     init("C06");
-    let text = String::from_utf8_lossy(data).to_string();
+    // every caller reads documents through FileParser, which folds CR LF first
+    let text = String::from_utf8_lossy(&crate::c13::fold_crlf(data)).to_string();
     match crate::c06::md_parse(&text) {
         Err(p) => Some(format!("Markdown parser crashed: {p}")),
         Ok(Err(_)) => None,
@@ -34,7 +35,7 @@ pub fn markdown(data: &[u8]) -> Option<String> {
 /// C07: any UTF-8 text as Cram document
 pub fn cram(data: &[u8]) -> Option<String> {
     init("C07");
-    let text = String::from_utf8_lossy(data).to_string();
+    let text = String::from_utf8_lossy(&crate::c13::fold_crlf(data)).to_string();
     let lines: Vec<String> = text.lines().map(String::from).collect();
     verdict(crate::c07::check_soup_lines(&lines))
 }
